@@ -80,6 +80,10 @@ def apply_mutations(root, schema, kinds, muts):
             elif op == "remove":
                 if n:
                     lst.remove(lst[m["i"] % n])
+            elif op == "imul":
+                lst *= [-1, 0, 1, 2, 2, 3][m["i"] % 6]
+            elif op == "clear":
+                lst.clear()
             elif op == "reverse":
                 lst.reverse()
             elif op == "sort":
@@ -219,7 +223,7 @@ class C07(Property):
             muts = []
             for _ in range(rng.choice([0, 0, 1, 2, 3, 4])):
                 op = rng.choice(["insert", "append", "pop", "del", "delslice", "setslice", "reverse", "sort",
-                                 "delslice3", "delslice3", "setslice3", "setitem", "extend", "iadd", "remove"])
+                                 "delslice3", "delslice3", "setslice3", "setitem", "extend", "iadd", "remove", "imul", "imul", "clear"])
                 sl = [rng.choice([None, None, 0, 1, 2, -1, -2, 5]), rng.choice([None, None, 0, 1, 2, 3, -1, 9]),
                       rng.choice([None, None, 1, 2, -1, -2, 3])]
                 m = {"target": rng.randint(0, 5), "op": op, "i": rng.randint(0, 6), "j": rng.randint(0, 6),
